@@ -151,6 +151,36 @@ PROPS = {
         },
         "assumptions": ["streams produced by the crate's own writers are valid (C01-C03)", "the BCJ2 model encoder"],
     },
+    "C06": {
+        "level": "exploration",
+        "variants": {
+            "quick": [("rel", {}), ("dbg", {})],
+            "thorough": [("rel", {"timeout": 5 * 3600}), ("dbg", {"timeout": 5 * 3600})],
+        },
+        "floors": ["cases_ending_in_err", "cases_ending_in_ok", "read_calls"],
+        "rule": "case = (reader in {LZMAReader x3 constructors, LZMA2Reader, XZReader single/multi, LZIPReader, LZIPReaderMT, "
+                "LZMA2ReaderMT, BCJReader x8, DeltaReader, BCJ2Reader} x input class {random/zero/0xFF bytes, byte-level "
+                "mutations of a valid stream (flip/set/delete/insert/duplicate/cut), structure-aware field edits with CRC32 "
+                "fix-up, .lzma header extremes (props 0-255, dict 0..0xFFFFFFFF, size 0..2^64-1, memory limits), caller "
+                "parameters (props, lc/lp/pb up to 9/5/5, dict incl. 0 and unaligned, declared sizes), LZMA2 control/size/"
+                "props byte edits, any BCJ start offset incl. 2^31 and 2^32 boundaries, delta distances 1..256, BCJ2 valid "
+                "encodings with damage and random sizes, concatenated files} x read buffer size), plus a steering block: "
+                "index with 2^63-1 and 2^36 records, dict property 40, 200 000 empty LZIP members (ST and MT), 100 000 empty "
+                "XZ streams/blocks, 50 000 one-byte LZMA2 units, 32 MiB decompression bombs for every reader. Monitors: "
+                "catch_unwind around constructor + read loop + 3 reads after the end/error; child-process death (SIGSEGV/"
+                "SIGABRT) confirmed by a solitary re-run; stuck predicate for the MT readers; allocator monitor: peak bytes "
+                "in the call window <= declared dictionary + 8 MiB + 64 x input length. Cell = reader|input class|outcome "
+                "class (error message or Ok); non-trivial = the reader produced bytes or an error.",
+        "manifest": {
+            "text": "Exploration (fuzz-like) over hostile inputs and caller parameters with panic, abort, stack-overflow, "
+                    "stuck and allocation monitors, in a release and a debug-assertion build.",
+            "note": "A CPU-bound endless loop inside a single read call cannot be told from slow progress by this family: "
+                    "it would surface as the shard watchdog (inconclusive), not as a violation.",
+            "technique": "runtime monitoring: catch_unwind + child-process isolation + counting global allocator + stuck predicate",
+        },
+        "assumptions": ["declared dictionary = what the harness's lenient scan of the input (or the caller parameter) yields",
+                        "output volume is not judged on corrupt input (a damaged size field legitimately announces more data)"],
+    },
     "C08": {
         "level": "exploration",
         "variants": {
